@@ -174,6 +174,8 @@ pub struct SetEng<'c, KD: Kind, const N: usize> {
     pub groups: u8,
     pub dup_paths: u32,
     pub poisoned: bool,
+    /// C09: the models as they were when the op in flight started (see maphist)
+    pub quiet0: Option<[Option<Model>; 2]>,
     /// a container is malformed (duplicate keys, len disagrees with iteration, dead element) and
     /// the armed property does not own that: the rest of the case is discarded
     pub abandon: bool,
@@ -331,6 +333,13 @@ where
                     cx.chk(p_well, got == Ok(true), "yield-vs-contains", || format!("contains({}) is false for a yielded element", o.raw));
                 }
             }
+            // C09, "iterating twice without an intervening mutation yields the same order": a call
+            // after which the set holds the very objects it held before is no mutation
+            if self.quiet0.as_ref().is_some_and(|q| q[w].as_ref() == Some(&slot.model)) && !faulted && !liar {
+                cx.bump(S::order_checks_across_quiet_mut_calls);
+                let same = slot.order.len() == obs.len() && slot.order.iter().zip(obs.iter()).all(|(a, o)| *a == o.raw);
+                cx.chk(P09, same, "order-stable", || format!("iteration order changed across a call that left every element as it was: {:?} before, {:?} after", slot.order, obs.iter().map(|o| o.raw).collect::<Vec<_>>()));
+            }
             slot.order.clear();
             slot.order.extend(obs.iter().map(|o| o.raw));
             if obs.is_empty() {
@@ -457,6 +466,11 @@ where
         let w = if raw[3] & 0x80 != 0 && self.slots[1].is_some() { 1 } else { 0 };
         self.cur_target = w;
         self.op_overflow = false;
+        self.quiet0 = if self.cx.armed == Prop::C09 && matches!(opi, O_INSERT | O_CONTAINS | O_GET | O_REMOVE | O_TAKE | O_RETAIN | O_WALK | O_FMT) {
+            Some([self.slots[0].as_ref().map(|s| s.model.clone()), self.slots[1].as_ref().map(|s| s.model.clone())])
+        } else {
+            None
+        };
         let (a, b, c) = (raw[1], raw[2], raw[3] & 0x7f);
         let lied0 = tl::liar_lies();
         match opi {
@@ -1883,6 +1897,7 @@ where
         lib_panicked: false,
         cur_target: 0,
         poisoned: false,
+        quiet0: None,
         abandon: false,
             may_leak: false,
         op_overflow: false,
